@@ -201,6 +201,10 @@ func judge(pool *runner.Pool, q *refsql.Query, optimize bool) verdict {
 	if err != nil {
 		return verdict{Class: "harness-unresolved", Why: err.Error()}
 	}
+	if want.Ambiguous {
+		// a nested LIMIT admits several answers: the outer result is not determined by the statement
+		return verdict{Class: "ambiguous"}
+	}
 	res := pool.Run(sqlArgs(q.SQL(), "json", optimize), "")
 	v := verdict{Res: res}
 	switch res.Class() {
